@@ -134,6 +134,7 @@ type Machine struct {
 	reached   []string
 	observes  []obsRec
 	errInfo   map[*Value]*errRec
+	syncMaps  map[*Value]*Map
 	noPanic   int
 	mayPanic  int
 
